@@ -4,9 +4,11 @@
 //! Initial value `START_MS = 45_296_780` (= 12:34:56.780).
 //!
 //! * `const`: every call of `get_current_date_time` / `get_current_date` returns `decode(START_MS)`; no state change.
-//! * `tick`:  every call of `get_current_date_time` OR `get_current_date` returns `decode(ms)` (the date part for
-//!   `get_current_date`) and THEN sets `ms := ms + 2010`. The counter lives as long as the history (it is not reset
-//!   by unmount/mount; a new history starts at `START_MS` again).
+//! * `tick`:  the executor sets `ms := ms + 2010` at the START of every API operation of the history (every `O` line
+//!   except `raw`, `root` and `crashprobe`); within one operation every call of `get_current_date_time` /
+//!   `get_current_date` returns `decode(ms)` and changes nothing. So the time is a function of the position of the
+//!   operation in the history and not of how often the library consults the provider while serving it. The counter
+//!   lives as long as the history (it is not reset by unmount/mount; a new history starts at `START_MS` again).
 //!
 //! `decode(ms)` (fictitious calendar in which every month has 28 days, so that every value is a valid DOS date):
 //!
@@ -65,11 +67,15 @@ impl Clock {
         }
     }
 
+    /// Called by the executor at the start of every API operation of the history.
+    pub fn advance(&self) {
+        if self.mode == ClockMode::Tick {
+            self.ms.set(self.ms.get() + STEP_MS);
+        }
+    }
+
     fn next(&self) -> DateTime {
         let ms = self.ms.get();
-        if self.mode == ClockMode::Tick {
-            self.ms.set(ms + STEP_MS);
-        }
         let (y, mo, d, h, mi, s, milli) = decode(ms);
         DateTime::new(Date::new(y, mo, d), Time::new(h, mi, s, milli))
     }
